@@ -376,6 +376,12 @@ func gen(g *core.G) {
 		g.Emit("@law-var " + s(v) + " " + s(t))
 	}
 
+	// ---- (2') the recursion guard of aliases: one alias object meeting the same right-hand part twice -----------
+	for _, gc := range lg.GuardCases(300 * g.Scale) {
+		g.Emit("asg " + s(gc.A) + " " + s(gc.B))
+		g.Emit("trans " + s(gc.A) + " " + s(gc.B) + " " + s(lg.Narrow(gc.B)))
+	}
+
 	// ---- (3) malformed stream (implementation only) ----------------------------------------------------------------
 	odd := []string{"(int 2 1)", "(strsz 3 1)", "(arr any 5 2)", "(var str)", "(struct (x f str))", "(obj 3)", "(enum t x41)", "(tup (str) (2 1))"}
 	for i := 0; i < 200; i++ {
